@@ -44,8 +44,8 @@ Definition check (k : case) : bool :=
   | Ok (VElem i) s', IElem ident d =>
       (match ident with Some j => (i =? j)%nat | None => (n0 <=? i)%nat end)
       && (match rd s' i with Some (_, d') => negb (k_cmp k) || oqs_close d d' | None => false end)
-      && post_ok s' (k_post k)
-  | Ok (VSc v) s', ISc v' => (negb (k_cmp k) || opt_close tol tol v' v) && post_ok s' (k_post k)
+      && (negb (k_cmp k) || post_ok s' (k_post k))
+  | Ok (VSc v) s', ISc v' => negb (k_cmp k) || (opt_close tol tol v' v && post_ok s' (k_post k))
   | Err e s', IErr e' => err_eqb e e' && post_ok s' (k_post k)
   | _, _ => false
   end.
